@@ -1,6 +1,6 @@
 (* C12 -- proofs about exe()/cwd() (readlink cleanup, withheld links, fallback to
    cmdline()[0], the _exe cache) and the extended name(). *)
-From PV Require Import C12.Spec C12.Proofs.
+From PV Require Import C12.Spec C12.Proofs C12.ProofsEnv.
 
 (* ---------------------------------------------------------------- readlink cleanup *)
 Lemma shown_nul_free r : nul_free (l_path r) = true -> contains 0 (k_shown r) = false.
@@ -393,6 +393,51 @@ Example name_history_example :
   forallb (fun so => wf_nstate (fst so) && name_family (snd so)) h = true
   /\ map spec_name_step h = [RBytes (Val (bs "gnome-keyring-daemon")); RUnit; RBytes (Val comm); ROpt (Val (Some comm)); RBytes (Val comm)].
 Proof. cbv zeta. split; reflexivity. Qed.
+
+(* ---------------------------------------------------------------- a whole live process *)
+Lemma pl_environ_ext c v v' :
+  v_environ v = v_environ v' -> v_stat v = v_stat v' -> pl_environ c v = pl_environ c v'.
+Proof. intros He Hs. unfold pl_environ, wrap, is_zombie. rewrite He, Hs. reflexivity. Qed.
+
+Lemma fe_name_ext c v v' :
+  v_stat v = v_stat v' -> v_stat_denied v = v_stat_denied v' -> v_comm v = v_comm v' -> v_cmdline v = v_cmdline v' ->
+  fe_name c v = fe_name c v'.
+Proof.
+  intros Hs Hd Hc Hl. unfold fe_name, pl_name. rewrite (pl_cmdline_ext c v v' Hl Hs).
+  unfold wrap, is_zombie. rewrite Hs, Hd, Hc. reflexivity.
+Qed.
+
+(* all five accessors on one live process record (what the live cases run against the kernel) *)
+Lemma live_block : forall r,
+  wf_live r = true ->
+  exists d, run_ops now st0 (live_ops (view_live r)) =
+            [RList (Val (spec_cmdline (lv_cmd r))); RDict (Val d);
+             RBytes (Val (l_path (lv_exe r))); RBytes (Val (l_path (lv_cwd r))); RBytes (Val (spec_name (live_proc r)))]
+            /\ NoDup (map fst d) /\ forall k, aget k d = aget k (spec_env (e_items (lv_env r))).
+Proof.
+  intros r H. unfold wf_live in H.
+  apply andb_true_iff in H as [H Hcwd]. apply andb_true_iff in H as [H Hexe].
+  apply andb_true_iff in H as [H Henv]. apply andb_true_iff in H as [Hlen Hcmd].
+  assert (E1 : pl_cmdline now (view_live r) = Val (spec_cmdline (lv_cmd r))).
+  { rewrite (pl_cmdline_ext now (view_live r) (view_cmd (lv_cmd r) false)) by reflexivity.
+    apply cmdline_live_spec; [exact Hcmd|intros H0; discriminate H0]. }
+  assert (E2 : exists d, pl_environ now (view_live r) = Val d /\ NoDup (map fst d) /\
+                         forall k, aget k d = env_last k (e_items (lv_env r))).
+  { rewrite (pl_environ_ext now (view_live r) (view_env (lv_env r))) by reflexivity.
+    now apply environ_lookup_now. }
+  assert (E3 : fe_exe now None (view_live r) = (Val (l_path (lv_exe r)), Some (l_path (lv_exe r)))).
+  { unfold fe_exe, pl_exe. cbn [view_live v_exe]. rewrite link_cleanup by exact Hexe.
+    unfold wf_link in Hexe. apply andb_true_iff in Hexe as [Hl _]. apply andb_true_iff in Hl as [_ Hne].
+    destruct (l_path (lv_exe r)); [discriminate|reflexivity]. }
+  assert (E4 : pl_cwd (view_live r) = Val (l_path (lv_cwd r))).
+  { unfold pl_cwd. cbn [view_live v_cwd]. now apply link_cleanup. }
+  assert (E5 : fe_name now (view_live r) = Val (spec_name (live_proc r))).
+  { rewrite (fe_name_ext now (view_live r) (view_proc (live_proc r))) by reflexivity.
+    apply name_spec_now. unfold wf_proc, live_proc. cbn [p_cmd p_exe p_comm]. now rewrite Hcmd, Hexe, Hlen. }
+  destruct E2 as [d [Hd [Hn Hl]]]. exists d. split; [|split; [exact Hn|]].
+  - unfold live_ops. cbn [run_ops do_op fe_name_st s_exe s_name st0]. rewrite E1, Hd, E3, E4, E5. reflexivity.
+  - intros k. rewrite Hl. symmetry. apply spec_env_lookup.
+Qed.
 
 Lemma name_multibyte_refuted :
   exists r, wf_proc r = true /\ cmd_no_cr (p_cmd r) = true /\ length (p_comm r) = 15%nat /\
